@@ -295,6 +295,7 @@ def run(ctx) -> int:
         # column is 4 or more), and lazy lines after a quote that matter only as lazy lines
         ds += ["[bar]:\n***\n", "[bar]:\n```\nx\n```\n", "[bar]:\n<div>\n", "[bar]:\n# h\n", "[bar]:\n> q\n", "[bar]: /u\n***\n",
                "[bar]:\n/u\n***\n", "> a\n===\n", "> ```\nfoo\n", "> a\n---\n", "> - a\nb\n===\n"]
+        ds += docs.corner_docs()        # the hand-made corner documents as D
         for d in ds:
             d = clean(d)
             cfg, md = mds[0]
